@@ -116,6 +116,9 @@ Pass(t, v) ==
     [] t.kind = "max"   -> v <= t.n
     [] t.kind = "len"   -> v = t.n
     [] t.kind = "const" -> t.n = 1
+    [] t.kind = "has"   -> v >= t.n        \* strings.Contains(subject, n characters)
+    [] t.kind = "nlen"  -> v # t.n         \* Not().Len(n)
+    [] t.kind = "nhas"  -> v < t.n         \* Not().Contains(...)
     [] OTHER            -> FALSE
 
 \* ---- bags ---------------------------------------------------------------
